@@ -48,6 +48,7 @@ type thread struct {
 	panicked bool
 	panicVal string
 	inLib    bool // harness-maintained: thread is inside a library call
+	gid      string
 }
 
 // T is the handle a thread body receives.
@@ -90,6 +91,9 @@ type Result struct {
 	DeadlockAt  []string // "thread@site" of the stuck threads
 	Panics      []string // "thread N: value\nstack"
 	Stuck       string   // non-empty: a thread stopped responding outside the hooks (un-hooked blocking call) – inconclusive
+	StuckThread int      // the thread that stopped responding (valid when Stuck != "")
+	StuckState  string   // its goroutine wait state ("sync.Mutex.Lock", "semacquire", ...), "" if not established
+	StuckStack  string   // its stack
 	Preemptions int      // times the scheduler switched away from a thread that could have continued
 	InsideSw    int      // preemptions at a library-internal site (not an explicit harness yield)
 	Choices     int      // scheduling decisions that had more than one option
@@ -212,6 +216,7 @@ func (s *S) Run() Result {
 		th := th
 		th.kind, th.site = reqStart, "start"
 		go func() {
+			th.gid = goid()
 			<-th.resume
 			defer func() {
 				if p := recover(); p != nil {
@@ -293,22 +298,73 @@ func (s *S) Run() Result {
 		last = pick
 		pick.resume <- struct{}{}
 		// wait until it parks again or finishes
-		select {
-		case <-s.ctl:
-		case <-time.After(stuckAfter):
-			s.cur = nil
-			res.Stuck = fmt.Sprintf("thread %d did not reach a hook or finish within %v after being resumed at %s; goroutines:\n%s", pick.id, stuckAfter, pick.site, stacks())
-			return s.finish(res)
+		waited := time.Duration(0)
+	wait:
+		for {
+			select {
+			case <-s.ctl:
+				break wait
+			case <-time.After(inspectAfter):
+				waited += inspectAfter
+				// not a verdict from elapsed time: look at what the goroutine is doing
+				state, stack := goroutineState(pick.gid)
+				if isBlockingState(state) || waited >= stuckAfter {
+					s.cur = nil
+					res.StuckThread, res.StuckState, res.StuckStack = pick.id, state, stack
+					res.Stuck = fmt.Sprintf("thread %d did not reach a hook or finish after being resumed at %s; goroutine state %q:\n%s", pick.id, pick.site, state, stack)
+					return s.finish(res)
+				}
+			}
 		}
 		s.cur = nil
 	}
 	return s.finish(res)
 }
 
-var stuckAfter = 10 * time.Second
+var (
+	inspectAfter = 1500 * time.Millisecond
+	stuckAfter   = 30 * time.Second
+)
+
+func goid() string {
+	var buf [64]byte
+	n := runtime.Stack(buf[:], false)
+	f := strings.Fields(string(buf[:n]))
+	if len(f) >= 2 {
+		return f[1]
+	}
+	return ""
+}
+
+// goroutineState returns the wait state and stack of goroutine gid ("" if not found).
+func goroutineState(gid string) (state, stack string) {
+	all := stacks()
+	for _, blk := range strings.Split(all, "\n\n") {
+		if !strings.HasPrefix(blk, "goroutine "+gid+" [") {
+			continue
+		}
+		hdr := blk[:strings.IndexByte(blk+"\n", '\n')]
+		if i, j := strings.IndexByte(hdr, '['), strings.IndexByte(hdr, ']'); i >= 0 && j > i {
+			state = hdr[i+1 : j]
+			if k := strings.IndexByte(state, ','); k >= 0 {
+				state = state[:k]
+			}
+		}
+		return state, blk
+	}
+	return "", ""
+}
+
+func isBlockingState(st string) bool {
+	switch st {
+	case "sync.Mutex.Lock", "sync.RWMutex.Lock", "sync.RWMutex.RLock", "semacquire", "chan receive", "chan send", "select", "sync.Cond.Wait", "sync.WaitGroup.Wait":
+		return true
+	}
+	return false
+}
 
 func stacks() string {
-	buf := make([]byte, 1<<16)
+	buf := make([]byte, 1<<18)
 	return string(buf[:runtime.Stack(buf, true)])
 }
 
